@@ -302,47 +302,56 @@ func runC08(c *Ctx) {
 	if dl := c.Role("announce.deliver"); dl == nil {
 		c.Unk("C08.L7-accepted-announcement-handed-on", "announce › delivery routine", token.NoPos, "not found")
 	} else {
+		// (the routine may be split into phases: the select is looked for in it and in its single-caller steps)
 		var sel *ssa.Select
-		instrs(dl, func(in ssa.Instruction) {
-			if sl, ok := in.(*ssa.Select); ok {
-				for _, st := range sl.States {
-					if st.Dir == types.SendOnly && strings.HasSuffix(st.Send.Type().String(), "announce.Announce") {
-						sel = sl
+		var selFn *ssa.Function
+		for _, f := range c.Funcs("announce") {
+			if f.SSA != dl && c.routineOf(f.SSA) != dl {
+				continue
+			}
+			instrs(f.SSA, func(in ssa.Instruction) {
+				if sl, ok := in.(*ssa.Select); ok {
+					for _, st := range sl.States {
+						if st.Dir == types.SendOnly && strings.HasSuffix(st.Send.Type().String(), "announce.Announce") {
+							sel, selFn = sl, f.SSA
+						}
 					}
 				}
-			}
-		})
-		n := 0
-		if sel != nil {
-			for _, cs := range c.Calls(dl, Any()) {
-				call, isCall := cs.In.(*ssa.Call)
-				if !isCall || cs.Fn != dl {
-					continue
+			})
+		}
+		if sel == nil {
+			c.Unk("C08.L7-accepted-announcement-handed-on", c.short(dl.String()), dl.Pos(), "no hand-over select found in the delivery routine or its steps")
+		} else {
+			// the checks: calls (of this package, returning only an error) whose nil edge the select lies under
+			var checks []*ssa.Call
+			instrs(selFn, func(in ssa.Instruction) {
+				call, isCall := in.(*ssa.Call)
+				if !isCall {
+					return
 				}
 				callee := call.Call.StaticCallee()
-				if callee == nil || !samePkgBody(dl, callee) || callee.Signature.Results().Len() != 1 || !isErrorType(callee.Signature.Results().At(0).Type()) {
-					continue
+				if callee == nil || !samePkgBody(selFn, callee) || callee.Signature.Results().Len() != 1 || !isErrorType(callee.Signature.Results().At(0).Type()) {
+					return
 				}
-				if _, g := c.Guarded(sel, EqNil(Is(c.E(call))), true); !g {
-					continue
+				if _, g := c.Guarded(sel, EqNil(Is(c.E(call))), true); g {
+					checks = append(checks, call)
 				}
-				n++
-				ok, path := pathsFromPass(call, func(in ssa.Instruction) bool {
-					if in == ssa.Instruction(sel) {
-						return true
+			})
+			ok, path := allPathsPass(selFn, func(in ssa.Instruction) bool {
+				if in == ssa.Instruction(sel) {
+					return true
+				}
+				if _, isRet := in.(*ssa.Return); isRet {
+					for _, ck := range checks {
+						if _, failed := c.GuardedB(in.Block(), EqNil(Is(c.E(ck))), false); failed {
+							return true
+						}
 					}
-					if _, isRet := in.(*ssa.Return); isRet {
-						_, failed := c.GuardedB(in.Block(), EqNil(Is(c.E(call))), false)
-						return failed
-					}
-					return false
-				})
-				c.Check(ok, "C08.L7-accepted-announcement-handed-on", c.short(dl.String())+" › after "+c.short(callee.String())+" accepts", call.Pos(),
-					"every way on from the accepted check reaches the hand-over select", "the delivery routine can return after the announcement was accepted (its CID marked as seen) without handing it on ("+path+"): the announcement is lost and its repetition is dropped as a duplicate")
-			}
-		}
-		if n == 0 {
-			c.Unk("C08.L7-accepted-announcement-handed-on", c.short(dl.String()), dl.Pos(), "no check followed by a hand-over select found in the delivery routine")
+				}
+				return false
+			})
+			c.Check(ok, "C08.L7-accepted-announcement-handed-on", c.short(selFn.String())+" › accepted ⇒ handed on", sel.Pos(),
+				"every way through the routine reaches the hand-over select, except where the check itself refuses", "the delivery routine can return after the announcement was accepted (its CID marked as seen) without handing it on ("+path+"): the announcement is lost and its repetition is dropped as a duplicate")
 		}
 		c.Floor("C08.L7-accepted-announcement-handed-on", 1)
 	}
@@ -500,7 +509,7 @@ func c08Outcomes(c *Ctx, handler *ssa.Function, take CallSite) {
 		if sc == nil {
 			return
 		}
-		switch c08Classify(c, sc) {
+		switch c08ClassifySite(c, ci) {
 		case "success":
 			successCalls = append(successCalls, in)
 		case "failure":
@@ -547,14 +556,7 @@ func c08Outcomes(c *Ctx, handler *ssa.Function, take CallSite) {
 			sc = fci.Common().StaticCallee()
 		}
 		unc := c.Calls(sc, Call("announce.Receiver).UncacheCid"))
-		sends := 0
-		instrs(sc, func(in ssa.Instruction) {
-			if s, ok := in.(*ssa.Send); ok {
-				if x := c.E(s.Chan); x.Op == "field" && x.Name == "inEvents" {
-					sends++
-				}
-			}
-		})
+		sends := c08NotifierSends(c, sc, 0)
 		c.Check(len(unc) == 1 && sends == 1, "C08.L4-failure-path", c.short(sc.String()), sc.Pos(),
 			"failure path un-caches the CID once and sends one error event", "failure path does not (un-cache once and send exactly one event)")
 	}
@@ -562,12 +564,22 @@ func c08Outcomes(c *Ctx, handler *ssa.Function, take CallSite) {
 	c.Floor("C08.L4-failure-path", 2)
 }
 
-// c08Classify classifies a callee as the success or failure notifier by what it does.
+// c08Classify classifies a callee as the success or failure notifier by what it does: "success" records the
+// latest-synced value and sends an event without error; "failure" sends an event with an error and records nothing;
+// "unified" is one routine for both — the event's Err is its error parameter and the latest-synced value is recorded
+// only where that parameter is nil (its call sites are then success or failure by their argument: c08ClassifySite).
+// A routine that sends nothing itself takes the kind of the notifier calls it contains, if they agree.
 func c08Classify(c *Ctx, fn *ssa.Function) string {
+	return c08ClassifyD(c, fn, 0)
+}
+
+func c08ClassifyD(c *Ctx, fn *ssa.Function, depth int) string {
 	if fn.Pkg == nil || fn.Pkg.Pkg.Path() != modPath+"/"+dagsyncPkg {
 		return ""
 	}
 	sendsEvent, setsLatest, hasErr := false, false, false
+	var errField *X
+	var setCalls []ssa.Instruction
 	instrs(fn, func(in ssa.Instruction) {
 		switch in := in.(type) {
 		case *ssa.Send:
@@ -578,6 +590,9 @@ func c08Classify(c *Ctx, fn *ssa.Function) string {
 					for _, fi := range v.Args {
 						if fi.Name == "Err" {
 							hasErr = true
+							if len(fi.Args) == 1 {
+								errField = fi.Args[0]
+							}
 						}
 					}
 				}
@@ -585,6 +600,7 @@ func c08Classify(c *Ctx, fn *ssa.Function) string {
 		case ssa.CallInstruction:
 			if _, ok := Match(c.RoleCall("latest.set"), c.CallX(in)); ok {
 				setsLatest = true
+				setCalls = append(setCalls, in)
 			}
 		}
 	})
@@ -593,8 +609,92 @@ func c08Classify(c *Ctx, fn *ssa.Function) string {
 		return "success"
 	case sendsEvent && hasErr && !setsLatest:
 		return "failure"
+	case sendsEvent && hasErr && setsLatest && errField != nil && errField.Op == "param":
+		for _, sc := range setCalls {
+			if _, g := c.Guarded(sc, EqNil(Is(errField)), true); !g {
+				return ""
+			}
+		}
+		return "unified"
+	}
+	// a failure wrapper: sends nothing itself and hands its own error parameter to the notifier (after, say, un-caching)
+	if !sendsEvent && !setsLatest && depth == 0 {
+		var own *ssa.Parameter
+		for _, p := range fn.Params {
+			if isErrorType(p.Type()) {
+				own = p
+			}
+		}
+		n, fails := 0, 0
+		instrs(fn, func(in ssa.Instruction) {
+			ci, ok := in.(ssa.CallInstruction)
+			if !ok {
+				return
+			}
+			sc := ci.Common().StaticCallee()
+			if sc == nil {
+				return
+			}
+			if k := c08ClassifyD(c, sc, 1); k == "unified" || k == "failure" {
+				n++
+				for i, p := range sc.Params {
+					if isErrorType(p.Type()) && i < len(ci.Common().Args) && own != nil && ci.Common().Args[i] == ssa.Value(own) {
+						fails++
+					}
+				}
+			} else if k == "success" {
+				n += 100
+			}
+		})
+		if n == 1 && fails == 1 {
+			return "failure"
+		}
 	}
 	return ""
+}
+
+// c08ClassifySite: what a call amounts to — a success or a failure notification ("" if neither).
+func c08ClassifySite(c *Ctx, ci ssa.CallInstruction) string {
+	return c08ClassifySiteD(c, ci, 0)
+}
+
+func c08ClassifySiteD(c *Ctx, ci ssa.CallInstruction, depth int) string {
+	sc := ci.Common().StaticCallee()
+	if sc == nil {
+		return ""
+	}
+	switch k := c08ClassifyD(c, sc, depth); k {
+	case "success", "failure":
+		return k
+	case "unified":
+		for i, p := range sc.Params {
+			if isErrorType(p.Type()) && i < len(ci.Common().Args) {
+				if k, isC := ci.Common().Args[i].(*ssa.Const); isC && k.Value == nil {
+					return "success"
+				}
+				return "failure"
+			}
+		}
+	}
+	return ""
+}
+
+// c08NotifierSends: the number of event sends a notification routine performs, its notifier callees included.
+func c08NotifierSends(c *Ctx, fn *ssa.Function, depth int) int {
+	n := 0
+	instrs(fn, func(in ssa.Instruction) {
+		if s, ok := in.(*ssa.Send); ok {
+			if x := c.E(s.Chan); x.Op == "field" && x.Name == "inEvents" {
+				n++
+			}
+		}
+		if ci, ok := in.(ssa.CallInstruction); ok && depth < 2 {
+			if sc := ci.Common().StaticCallee(); sc != nil && c08ClassifySite(c, ci) != "" {
+				n += c08NotifierSends(c, sc, depth+1)
+			}
+		}
+	})
+	return n
 }
 
 // c08AtomicSection: in every function that reads the latest-synced value as
@@ -626,8 +726,17 @@ func c08AtomicSection(c *Ctx, all map[string][]*LockAnalysis) {
 				if r := c.Role("latest.get"); r != nil && r.Object() == types.Object(f) {
 					reads = append(reads, call)
 				}
-				if sf := c.Prog.FuncValue(f); sf != nil && c08Classify(c, sf) == "success" {
-					writes = append(writes, call)
+				if sf := c.Prog.FuncValue(f); sf != nil {
+					k := c08Classify(c, sf)
+					if k == "unified" && len(call.Args) > 0 {
+						// a success by its argument: the error handed in is the literal nil
+						if id, isId := ast.Unparen(call.Args[len(call.Args)-1]).(*ast.Ident); isId && id.Name == "nil" {
+							k = "success"
+						}
+					}
+					if k == "success" {
+						writes = append(writes, call)
+					}
 				}
 				return true
 			})
